@@ -23,6 +23,35 @@ Proof.
   eapply msteps_trans; [exact M|apply Hm, Hn].
 Qed.
 
+Lemma sticky_loop_iteration stalled fuel s comps : nf (fst (loop_iteration_gen rules env F ord syncp stalled fuel s comps)) -> nf s.
+Proof.
+  unfold loop_iteration_gen. cbn zeta.
+  match goal with |- nf (fst (if ?b1 then (?x, _) else if ?b2 then (?x, _) else if ?b3 then (?x, _) else (?x, _))) -> _ =>
+    assert (E : fst (if b1 then (x, StWork) else if b2 then (x, StWait) else if b3 then (x, StStall) else (x, StDone)) = x) by (destruct b1, b2, b3; reflexivity);
+    rewrite E; clear E end.
+  intros H.
+  apply sticky_drain in H; [|apply sticky_step_fintask].
+  apply sticky_drain in H; [|apply sticky_step_ready].
+  apply sticky_drain in H; [|apply sticky_step_fininreq].
+  apply sticky_drain in H; [|apply sticky_step_inreq].
+  apply sticky_drain in H; [|apply sticky_step_scan].
+  now apply sticky_finish_all in H.
+Qed.
+
+Lemma run_loop_sticky stalled fuel pfuel root : forall s sched marks sf m,
+  run_loop_gen rules env F ord syncp stalled fuel pfuel root s sched marks = (RDone sf, m) -> nf sf -> nf s.
+Proof.
+  induction fuel as [|f IH]; intros s sched marks sf m Hrun Hn; cbn [run_loop_gen] in Hrun; [discriminate|].
+  destruct (loop_iteration_gen rules env F ord syncp stalled pfuel s _) as [s' st] eqn:Hit.
+  assert (Hs : nf s' -> nf s).
+  { intros H. eapply sticky_loop_iteration. rewrite Hit. exact H. }
+  destruct st.
+  - apply Hs. eapply IH; eauto.
+  - destruct (_ && _); [discriminate|]. apply Hs. eapply sticky_finish_all. eapply IH; eauto.
+  - discriminate.
+  - inversion Hrun. subst sf m. now apply Hs.
+Qed.
+
 (* a successful return of executeTasks without a failed assert: quiescent *)
 Lemma run_loop_done fuel pfuel root s0 : forall s sched marks sf m,
   in_build s0 root s -> run_loop_gen rules env F ord syncp stall_test fuel pfuel root s sched marks = (RDone sf, m) -> nf sf -> quiescent sf.
@@ -30,12 +59,27 @@ Proof.
   induction fuel as [|f IH]; intros s sched marks sf m Hb Hrun Hn; cbn [run_loop_gen] in Hrun; [discriminate|].
   destruct (loop_iteration_gen rules env F ord syncp stall_test pfuel s _) as [s' st] eqn:Hit.
   destruct st.
-  - (* StWork *)
-    destruct (is_fault s') eqn:Ef.
-    + exfalso. admit_run1.
-    + eapply IH; [|exact Hrun|exact Hn]. eapply in_build_iteration; eauto.
-  - admit_run2.
+  - assert (Hn' : nf s') by (eapply run_loop_sticky; eauto).
+    eapply IH; [|exact Hrun|exact Hn]. eapply in_build_iteration; eauto.
+  - destruct (_ && _); [discriminate|].
+    assert (Hn'' : nf (fold_left (task_finish rules) (match sched with [] => [] | c :: _ => snd c end) s')) by (eapply run_loop_sticky; eauto).
+    eapply IH; [|exact Hrun|exact Hn]. apply in_build_finish_all. eapply in_build_iteration; eauto. now apply sticky_finish_all in Hn''.
   - discriminate.
   - inversion Hrun. subst sf m. eapply (done_quiescent rules env F ord syncp); eauto.
+Qed.
+
+Lemma quiescent_commit_emit s e : quiescent s -> quiescent (iemit (commit s) e).
+Proof. intros Q. exact Q. Qed.
+
+(* BuildEngine::build returned a value and no assert failed: the engine is quiescent for the next build *)
+Theorem build_done_quiescent fuel pfuel s0 root sched sf m : quiescent s0 ->
+  ibuild rules env F ord syncp fuel pfuel s0 root sched = (RDone sf, m) -> is_fault sf = None -> quiescent sf.
+Proof.
+  intros Q Hrun Hn. unfold ibuild, ibuild_gen in Hrun. cbn zeta in Hrun.
+  destruct (run_build_gen rules env F ord syncp stall_test fuel pfuel root (iemit (bump s0) (EBuildStart root)) sched) as [r mm] eqn:Hr.
+  destruct r; inversion Hrun. subst sf m. apply quiescent_commit_emit.
+  unfold run_build_gen in Hr. eapply run_loop_done; [|exact Hr|].
+  - split; [exact Q|apply mss_refl].
+  - unfold nf in *. now autorewrite with iv in Hn.
 Qed.
 End Run.
